@@ -12,3 +12,5 @@ def check(rep, tier):
     rep.run(rules_numeric.run, rep, tier, clauses=('N-vjp',), only_complex='real-only')
     rep.run(rules_numeric.run_scale, rep)
     rep.run(rules_numeric.run_lowprec, rep, tier)
+    from contracts import guards
+    rep.run(guards.run, rep, tier)            # an unsupported configuration that stops raising returns a wrong gradient
